@@ -97,19 +97,7 @@ def wc_status(cs, c):
                     if G.near_seg3(a0, b0, b1, R2) or G.near_seg3(b0, a0, a1, R2): return None
     return 'near-straight' if near_straight else 'wc'
 
-def cond_note(cs, c):
-    """one clause describing how the stored polygon is conditioned (for failure details)"""
-    sc = cs.sc
-    mn_cross = None; mn_edge = None
-    for pts in [c.outer] + c.holes:
-        n = len(pts)
-        for k in range(n):
-            ab = G.sub3(pts[k], pts[k - 1]); bc = G.sub3(pts[(k + 1) % n], pts[k])
-            cr = math.isqrt(G.n23(G.cross3(ab, bc))) / sc.U2
-            e = math.isqrt(G.n23(bc)) / sc.U
-            if mn_cross is None or cr < mn_cross: mn_cross = cr
-            if mn_edge is None or e < mn_edge: mn_edge = e
-    return 'outer %d vertices, %d holes, shortest edge %.3g m, smallest |ab x bc| at a vertex %.3g m2' % (len(c.outer), len(c.holes), mn_edge, mn_cross)
+cond_note = G.cond_note
 
 def judge_candidate(cs, c, k, res, refine, panic_msg):
     key = cs.cand_precondition(c)
@@ -117,7 +105,7 @@ def judge_candidate(cs, c, k, res, refine, panic_msg):
         if res[0] == 'panic': return ('skip', 'panic-outside-space-' + key)
         return ('skip', key)
     if refine is not None and not G.params_in_space(refine[0], refine[1], cs.net_area_float(c)):
-        return ('skip', 'refinement-outside-space')
+        return ('skip', ('panic-outside-space-' if res[0] == 'panic' else '') + 'refinement-outside-space')
     what = 'mesh_polygon' if k == 1 else 'from_polygon'
     if res[0] == 'panic':
         return ('fail', 'panic:' + slug(panic_msg), '%s panicked: [%s] (%s)' % (what, panic_msg or '?', cond_note(cs, c)))
